@@ -120,6 +120,7 @@ extern const lib_t *const m4sim_libs[]; /* generated libs.c */
 extern const int m4sim_nlibs;
 const lib_t *lib_by_name(const char *name);
 
+extern int gen_fresh_world_has_zero_surroundings;
 extern int m4sim_l1, m4sim_l2, m4sim_l3; /* run-time cache knobs (DESIGN 2.2) */
 
 /* ---- execution context ---- */
